@@ -44,6 +44,7 @@ def case_strategy(unit, allow_special, box, nhkl=3):
         "op": st.integers(0, 191), "ext_pick": S.fl(0, 1), "disper": st.sampled_from(["table", "table", "absent"]),
         "prev_cell": st.one_of(st.none(), st.none(), S.fl(0.7, 1.4), S.logfl(1e-8, 1e-3)),
         "pos_as": st.sampled_from(["array", "array", "list", "int-if-integral"]),
+        "cell_as": st.sampled_from(["float-list", "float-list", "float-list", "float-array", "int-list", "int-array"]),
         "upper": st.booleans(), "blank": st.booleans()})
 
 
@@ -63,10 +64,12 @@ def build(case):
     g = GR.group(no, ch)
     a, b, c = case["abc"]
     cell = [float(x) + 0.0 for x in GR.conforming_cell(g, a, b, c, case["ang"][0], case["ang"][1], case["ang"][2], orth=case["orth"])]
+    cell, cell_arg = S.whole_number_variant(cell, case.get("cell_as", "float-list"))
     G, Gs, V = O.metric(cell)
     astar = np.sqrt(np.diag(Gs))
     M = Model()
     M.g, M.cell, M.G, M.Gs = g, cell, G, Gs
+    M.cell_arg = cell_arg
     al = [a for a in GR.aliases(no, ch) if ch != "rhombohedral" or a.lower().endswith("r")]
     name = al[case["op"] % len(al)] if case["op"] % 3 == 0 else g.name
     if case["upper"]:
@@ -212,5 +215,5 @@ def warm_up(M, case, ctx):
 def sfcalc(M, h, atoms=None, disper="default"):
     from xfab import structure
     d = M.disper if disper == "default" else disper
-    r = structure.StructureFactor(np.asarray(h), M.cell, M.name, M.atoms if atoms is None else atoms, d)
+    r = structure.StructureFactor(np.asarray(h), M.cell_arg, M.name, M.atoms if atoms is None else atoms, d)
     return complex(float(r[0]), float(r[1]))
